@@ -42,11 +42,12 @@ CLAIMS = {
    text="Lean theorems: for every input byte string and every output-buffer length, the models of Event/Filter/Tags::from_json, json_unescape, "
         "json_escape and read_hex return ok or err, never panic (every index, slice, checked-arithmetic and unwrap site of the Rust is an explicit "
         "guard in the model); json_unescape writes only inside its buffer and consumes no more than its input; the skip family refuses nesting "
-        "beyond 64 levels instead of recursing; a successful event/tags parse wrote, inside the buffer, the encoding of a value whose parts fit "
-        "every field, so that all accessors read it back (parseEvent_wellformed). Direct oracle on the real code, in a debug (overflow-checked) and "
+        "beyond 64 levels instead of recursing; a successful event / tags / FILTER parse wrote, inside the buffer, the encoding of a value whose parts, "
+        "counts, lengths and offsets fit every field, so that all accessors read it back (parseEvent_wellformed, tagsFromJson_wellformed, "
+        "parseFilter_wellformed). Direct oracle on the real code, in a debug (overflow-checked) and "
         "a release build: no panic/abort/hang, guard bytes intact, consumed <= input, all accessors/serializers total on every Ok, over every prefix "
         "of valid texts, single-byte corruptions incl. bytes >= 0x80, deep nesting to 200,000, 400-digit numbers, every buffer length.",
-   note=PROOF_NOTE + "Stack exhaustion depends on the platform stack size (the worker exhibits aborts; the model bounds depth). Addr::try_from_bytes is covered by the direct oracle only (std parse::<u16>/from_utf8 are not modelled). Filter well-formedness after from_json is covered by correspondence, not yet by a theorem.",
+   note=PROOF_NOTE + "Stack exhaustion depends on the platform stack size (the worker exhibits aborts; the model bounds depth). Addr::try_from_bytes is modelled (parseAddr, used by the deletion model) and compared on valid, malformed and mutated inputs; it has no theorem of its own.",
    technique="Lean 4 proof (totality by induction on fuel/structure; invariant over the member loop) + direct no-panic/guard-byte oracle in two build modes + differential correspondence",
    design="6/C03"),
  'C01': dict(
@@ -79,7 +80,8 @@ CLAIMS = {
         "constraints named by distinct letters with UTF-8 values, any since/until/limit, members present or defaulted - as_json succeeds and from_json of its "
         "text (any trailing input, any sufficient buffer with any prior contents) consumes exactly the text and yields exactly the bytes of from_parts, whose "
         "accessors return the filter; both passes of the parser are covered (the first records positions and skips values, the second copies). Also: the "
-        "parser is total; since/until literals are read exactly and rejected from 2^64 up; every stored kind is < 65536; a repeated tag letter is rejected "
+        "parser is total; whatever text it accepts, the bytes written are exactly the encoding of a sized filter which every accessor reads back "
+        "(accepted_is_wellformed); since/until literals are read exactly and rejected from 2^64 up; every stored kind is < 65536; a repeated tag letter is rejected "
         "wherever the first occurrence was. Faithfulness on arbitrary texts and order independence are decided by correspondence: CST filter texts vs Python "
         "json, member permutations (same acceptance and meaning, also for ill-formed member lists), all 52x52 ordered letter pairs exhaustively, integer "
         "boundaries, parse(as_json(f)) byte-identical.",
